@@ -154,8 +154,18 @@ def gen_cases(ctx):
         # offsets that start exactly on an inner frame (counted from the first frame / from the last when reversed)
         cum = list(itertools.accumulate(spacings))[:-1] + list(itertools.accumulate(reversed(spacings)))[:-1]
         offs = sorted(set(offs + [c for c in cum if rng.random() < 0.5]))
+        # u and v vary independently: one of them steady (identical in all frames) while the other changes
+        vv = None
+        if q % 6 == 4:
+            vv, uv = [2 * x - 1 for x in uv], [uv[0]] * m
+        elif q % 6 == 1:
+            vv = [0.75] * m
+        elif q % 6 == 3:
+            vv = [2.0 - 3 * x for x in uv]  # affine images keep the exactness of the increments
         fam = family(spacings, parts, scalar, exact, uv, tv, offsets=offs)
         for k, lay in enumerate(fam["batch"]):
+            if vv is not None:
+                lay["vvals"] = vv
             nst = abs(lay["stop"] - lay["start"]) // lay["dt"]
             pres = schedule(rng, nst, ["late", "always", "gap", "late"][(q + k) % 4])
             if pres:
